@@ -550,7 +550,12 @@ func (self *Interpreter) castExpression(node ast.AnalyzedCastExpression) (*value
 	// }
 
 	// TODO: implement a `deepCast` method which can convert [ {} ] -> [ { ? } ]
-	return value.DeepCast(*base, node.AsType, node.Span(), true)
+	casted, castError := value.DeepCast(*base, node.AsType, node.Span(), true)
+	if castError != nil {
+		// a refused cast can be caught by the program
+		return nil, value.NewThrowInterrupt(castError.Span, castError.Message())
+	}
+	return casted, nil
 
 	panic(fmt.Sprintf("Unsupported runtime cast from %v to %s", (*base).Kind(), node.AsType.Kind()))
 }
